@@ -838,6 +838,10 @@ def render_abstract(A, start=datetime(2024, 1, 1), length="+1w"):
     if A.get("alap"):
         L.append("  scheduling alap")
     L.append("}")
+    for a, b in A.get("vac", []):
+        L.append('vacation "v" %s - %s' % (fmt_date(start + timedelta(seconds=a)), fmt_date(start + timedelta(seconds=b))))
+    for a, b in A.get("gleaves", []):
+        L.append('leaves holiday "h" %s - %s' % (fmt_date(start + timedelta(seconds=a)), fmt_date(start + timedelta(seconds=b))))
     res, tasks = A["res"], A["tasks"]
 
     def short(n):
@@ -850,6 +854,8 @@ def render_abstract(A, start=datetime(2024, 1, 1), length="+1w"):
         eff = Fraction(r["effN"], r["effD"])
         if eff != 1:
             L.append("%sefficiency %s" % (i2, fmt_eff(eff)))
+        if r.get("tzname"):
+            L.append('%stimezone "%s"' % (i2, r["tzname"]))
         if r["cal"] == "hours":
             for d, ivs in enumerate(r["hours"]):
                 if ivs:
